@@ -96,7 +96,11 @@ fn unfolding(r: &PortableRegistry, id: u32, stack: &mut Vec<u32>, memo: &mut BTr
 
 pub fn judge(ctx: &mut Ctx, r: &PortableRegistry, id: u32, seed: u64, info: &(bool, bool, BTreeSet<&'static str>, bool), bound: u64, replay: &dyn Fn() -> serde_json::Value) -> bool {
     scale_typegen::verif_hooks::start();
+    // logical-step watchdog: the call may emit at most a generous multiple of the oracle's
+    // unfolding size of the type before it is stopped (bounded progress)
+    scale_typegen::verif_hooks::set_budget(Some(bound.saturating_mul(8).saturating_add(256).min(40_000_000)));
     let got = guard(|| scale_value_from_seed(id, r, seed));
+    scale_typegen::verif_hooks::set_budget(None);
     let events = scale_typegen::verif_hooks::take();
     crate::gen::tally(&events, &mut ctx.res.counters);
     let resolves = events.iter().filter(|e| matches!(e.tag, "tf:miss" | "tf:hit-in-progress" | "tf:hit-computed")).count() as u64;
@@ -104,6 +108,10 @@ pub fn judge(ctx: &mut Ctx, r: &PortableRegistry, id: u32, seed: u64, info: &(bo
         ctx.violation("C12:progress-bound", format!("example for id {id}: {resolves} resolve calls, oracle unfolding {bound}"), replay());
     }
     let value = match got {
+        Err(p) if p.msg.contains("event budget exceeded") => {
+            ctx.violation("C12:progress-bound", format!("scale_value_from_seed({id}, seed {seed}) did not finish within 8x the oracle's unfolding size ({bound}) of resolve steps"), replay());
+            return false;
+        }
         Err(p) => {
             ctx.violation(format!("C12:panic:{}", p.signature()), format!("scale_value_from_seed({id}, seed {seed}) panicked: {}", p.msg), replay());
             return false;
